@@ -124,6 +124,11 @@ func createSignature(response *Response, samlResponse *samlp.ResponseType, key *
 		}
 		response.Signature = sig
 		response.SigAlg = sigAlg
+	default:
+		// a binding the response cannot be delivered through: it is written to the body like a response without acs url
+		if err := createPostSignature(samlResponse, key, cert, signatureAlgorithm); err != nil {
+			return fmt.Errorf("failed to sign response: %w", err)
+		}
 	}
 	return nil
 }
